@@ -1,0 +1,183 @@
+//go:build verif
+
+package vgirpc
+
+import (
+	"crypto/rand"
+	"encoding/base64"
+	"errors"
+	"strings"
+
+	"golang.org/x/crypto/chacha20poly1305"
+)
+
+// Verification hooks for property C12 (forged or altered state tokens never
+// reach stream state). Add-only; compiled only with -tags verif.
+//
+// Constants are recovered by CALLING the real openToken / sealToken on probe
+// tokens (never copied): envelope geometry, and the refusal classes.
+
+// --- thin adapters: the only places that name the real token functions -------
+
+func verifC12Seal(h *HttpServer, version byte, payload interface{}, aad []byte) ([]byte, error) {
+	return h.sealToken(version, payload, aad)
+}
+func verifC12Open(h *HttpServer, version byte, tok []byte, aad []byte, out interface{}) error {
+	return h.openToken(version, tok, aad, out)
+}
+func verifC12CursorAad(a *AuthContext) []byte { return stateTokenAad(a) }
+func verifC12CallAad(a *AuthContext) []byte   { return callTokenAad(a) }
+
+type verifC12State struct{ N int64 }
+
+// VerifC12SealPacked builds the envelope sealToken builds — version byte, fresh
+// nonce, XChaCha20-Poly1305 under normalizeTokenKey(h.tokenKey) and aad, std
+// base64 — around an ARBITRARY already-packed plaintext. It stands for what a
+// holder of the token key could seal: payloads the honest sealToken never
+// produces (unknown codec tag, undecodable zstd body, undecodable gob).
+func VerifC12SealPacked(h *HttpServer, version byte, packed []byte, aad []byte) ([]byte, error) {
+	aead, err := chacha20poly1305.NewX(normalizeTokenKey(h.tokenKey))
+	if err != nil {
+		return nil, err
+	}
+	nonce := make([]byte, stateTokenNonceLen)
+	if _, err := rand.Read(nonce); err != nil {
+		return nil, err
+	}
+	raw := append([]byte{version}, nonce...)
+	raw = aead.Seal(raw, nonce, packed, aad)
+	return []byte(base64.StdEncoding.EncodeToString(raw)), nil
+}
+
+// VerifC12MintCursor seals a cursor with an explicit CreatedAt (through the
+// real sealToken); the call-state cache is not touched.
+func VerifC12MintCursor(h *HttpServer, callID string, state interface{}, a *AuthContext, createdAt int64) ([]byte, error) {
+	return verifC12Seal(h, cursorTokenVersion, &cursorTokenData{CreatedAt: createdAt, CallID: callID, State: state}, verifC12CursorAad(a))
+}
+
+// VerifC12MintCall seals a call token with an explicit CreatedAt (through the
+// real sealToken); the call-state cache is not touched.
+func VerifC12MintCall(h *HttpServer, method, callID, streamID string, a *AuthContext, createdAt int64) ([]byte, error) {
+	return verifC12Seal(h, callTokenVersion, &callTokenData{CreatedAt: createdAt, CallID: callID, StreamID: streamID, Method: method}, verifC12CallAad(a))
+}
+
+// VerifC12Aads returns the associated data of the two continuation slots.
+func VerifC12Aads(a *AuthContext) (cursor, call []byte) {
+	return verifC12CursorAad(a), verifC12CallAad(a)
+}
+
+// VerifC12Versions returns the version byte of the two continuation slots.
+func VerifC12Versions() (cursor, call byte) { return cursorTokenVersion, callTokenVersion }
+
+// VerifC12NormalizeKey exposes normalizeTokenKey.
+func VerifC12NormalizeKey(k []byte) []byte { return append([]byte(nil), normalizeTokenKey(k)...) }
+
+// VerifC12CodecTags returns the two payload codec tags.
+func VerifC12CodecTags() (raw, zstd byte) { return tokenCodecRaw, tokenCodecZstd }
+
+// VerifC12CallID mints a call id the way /init does.
+func VerifC12CallID() (string, error) { return newCallID() }
+
+func verifC12Msg(err error) string {
+	if err == nil {
+		return ""
+	}
+	var re *RpcError
+	if errors.As(err, &re) {
+		return re.Type + "\x00" + re.Message
+	}
+	return "\x01" + err.Error()
+}
+
+func init() {
+	RegisterStateType(verifC12State{})
+	verifConstProviders = append(verifConstProviders, func() (out []VerifConst) {
+		// never panic here: a panic would take the whole harness binary down
+		defer func() {
+			if recover() != nil {
+				out = []VerifConst{verifNum("c12_min_len", 0), verifNum("c12_nonce_len", 0), verifNum("c12_tag_len", 0),
+					verifNum("c12_key_size", 0), verifBytes("c12_msg_malformed", ""), verifBytes("c12_msg_signature", ""),
+					verifBytes("c12_msg_version_probe", ""), verifNum("c12_classes_ok", 0)}
+			}
+		}()
+		ok := int64(1)
+		bad := func(c bool) {
+			if c {
+				ok = 0
+			}
+		}
+		key := []byte("0123456789abcdef0123456789abcdef")
+		h, err := NewHttpServerWithKey(NewServer(), key)
+		h2, err2 := NewHttpServerWithKey(NewServer(), []byte("another-key-another-key"))
+		bad(err != nil || err2 != nil)
+		aad := verifC12CursorAad(nil)
+		tok, err := VerifC12MintCursor(h, "00", verifC12State{N: 1}, nil, 1<<40)
+		bad(err != nil)
+		raw, err := base64.StdEncoding.DecodeString(string(tok))
+		bad(err != nil || len(raw) < 2)
+		ver := raw[0]
+		open := func(hs *HttpServer, v byte, r []byte, a []byte) string {
+			var d cursorTokenData
+			return verifC12Msg(verifC12Open(hs, v, []byte(base64.StdEncoding.EncodeToString(r)), a, &d))
+		}
+		bad(open(h, ver, raw, aad) != "")
+
+		// envelope geometry: the shortest raw envelope that gets past the length
+		// check is 1 + nonce + tag (an empty sealed payload), found by probing
+		msgMal := verifC12Msg(verifC12Open(h, ver, []byte("!"), aad, &cursorTokenData{}))
+		minLen := int64(-1)
+		for n := 1; n <= 128; n++ {
+			r := make([]byte, n)
+			r[0] = ver
+			if open(h, ver, r, aad) != msgMal {
+				minLen = int64(n)
+				break
+			}
+		}
+		empty, err := VerifC12SealPacked(h, ver, nil, aad)
+		bad(err != nil)
+		rawEmpty, _ := base64.StdEncoding.DecodeString(string(empty))
+		bad(int64(len(rawEmpty)) != minLen)
+		nonceLen := int64(stateTokenNonceLen)
+		tagLen := minLen - 1 - nonceLen
+
+		// refusal classes
+		flip := func(i int) []byte { r := append([]byte(nil), raw...); r[i] ^= 0x40; return r }
+		msgSig := open(h, ver, flip(len(raw)-1), aad)                            // tag
+		bad(open(h, ver, flip(1), aad) != msgSig)                                // nonce
+		bad(open(h, ver, flip(1+int(nonceLen)), aad) != msgSig)                  // ciphertext body
+		bad(open(h2, ver, raw, aad) != msgSig)                                   // another key
+		bad(open(h, ver, raw, verifC12CallAad(nil)) != msgSig)                   // another AAD
+		bad(open(h, ver, raw[:len(raw)-1], aad) != msgSig)                       // truncated, still >= min
+		bad(open(h, ver, append(append([]byte(nil), raw...), 0), aad) != msgSig) // extended
+		bad(msgSig == msgMal || msgSig == "" || msgMal == "")
+		bad(open(h, ver, raw[:minLen-1], aad) != msgMal) // too short
+		v5, v7 := open(h, ver+1, raw, aad), open(h, ver+2, raw, aad)
+		bad(v5 == msgSig || v5 == msgMal || v5 == "" || v5 == v7)
+		// the version refusal names the two version bytes and nothing else
+		num := func(b byte) string {
+			return strings.TrimLeft(string([]byte{'0' + b/100, '0' + b/10%10, '0' + b%10}), "0")
+		}
+		bad(strings.ReplaceAll(strings.ReplaceAll(v5, num(ver), "#"), num(ver+1), "@") !=
+			strings.ReplaceAll(strings.ReplaceAll(v7, num(ver), "#"), num(ver+2), "@"))
+		// non-canonical text of a genuine token: refused as malformed
+		bad(verifC12Msg(verifC12Open(h, ver, append(append([]byte(nil), tok...), '\n'), aad, &cursorTokenData{})) != msgMal)
+		// post-authentication: unknown codec tag / empty payload are "malformed" too
+		for _, p := range [][]byte{nil, {0x7f, 1, 2}, {tokenCodecZstd, 1, 2, 3}} {
+			t, err := VerifC12SealPacked(h, ver, p, aad)
+			bad(err != nil || verifC12Msg(verifC12Open(h, ver, t, aad, &cursorTokenData{})) != msgMal)
+		}
+		vi := strings.IndexByte(v5, 0)
+		return []VerifConst{
+			verifNum("c12_min_len", minLen),
+			verifNum("c12_nonce_len", nonceLen),
+			verifNum("c12_tag_len", tagLen),
+			verifNum("c12_key_size", int64(chacha20poly1305.KeySize)),
+			verifBytes("c12_msg_malformed", msgMal[strings.IndexByte(msgMal, 0)+1:]),
+			verifBytes("c12_msg_signature", msgSig[strings.IndexByte(msgSig, 0)+1:]),
+			verifBytes("c12_msg_version_probe", v5[vi+1:]),
+			// 1 when every probe above had the class the model is written for
+			verifNum("c12_classes_ok", ok),
+		}
+	})
+}
